@@ -29,9 +29,17 @@ func isAggregate(f int) bool { return f >= fCnt }
 
 // CallRec is one recorded callback invocation.
 type CallRec struct {
-	Func int
-	Arg  string
-	Fail bool
+	Func    int
+	Variant int
+	Arg     string
+	Fail    bool
+}
+
+func callName(f, variant int) string {
+	if variant > 0 {
+		return funcNames[f] + "#" + string(rune('0'+variant))
+	}
+	return funcNames[f]
 }
 
 // Recorder collects the callback history of one operation of one task.
@@ -58,7 +66,7 @@ func (r *Recorder) log() string {
 		if c.Fail {
 			fl = "!"
 		}
-		s += funcNames[c.Func] + fl + "(" + c.Arg + ");"
+		s += callName(c.Func, c.Variant) + fl + "(" + c.Arg + ");"
 	}
 	if r.Bad != "" {
 		s += "BAD:" + r.Bad
@@ -124,7 +132,7 @@ func reenter(r *Recorder) {
 	}
 }
 
-func record(f int, arg interface{}) (*Recorder, bool) {
+func record(f, variant int, arg interface{}) (*Recorder, bool) {
 	simrt.CallbackSeam()
 	r := curRec[recSlot()]
 	if r == nil {
@@ -133,13 +141,15 @@ func record(f int, arg interface{}) (*Recorder, bool) {
 	i := r.Count[f]
 	r.Count[f]++
 	fail := i < 64 && r.Faults[f]&(1<<uint(i)) != 0
-	r.Calls = append(r.Calls, CallRec{Func: f, Arg: canon(arg), Fail: fail})
+	r.Calls = append(r.Calls, CallRec{Func: f, Variant: variant, Arg: canon(arg), Fail: fail})
 	return r, fail
 }
 
-func mkFilter(f int) func(interface{}) (interface{}, error) {
+// Functions of different Config variants carry the same names but behave differently, so
+// that a function leaking from one Config into a call made with another is visible.
+func mkFilter(f, variant int) func(interface{}) (interface{}, error) {
 	return func(v interface{}) (interface{}, error) {
-		r, fail := record(f, v)
+		r, fail := record(f, variant, v)
 		if f == fYF {
 			reenter(r)
 		}
@@ -147,15 +157,24 @@ func mkFilter(f int) func(interface{}) (interface{}, error) {
 			return nil, errPlanned{funcNames[f]}
 		}
 		if f == fTag {
-			return map[string]interface{}{"tag": v}, nil
+			return tagOf(v, variant), nil
 		}
 		return v, nil
 	}
 }
 
-func mkAggregate(f int) func([]interface{}) (interface{}, error) {
+func tagOf(v interface{}, variant int) interface{} {
+	if variant > 0 {
+		return map[string]interface{}{"tag": v, "variant": float64(variant)}
+	}
+	return map[string]interface{}{"tag": v}
+}
+
+func countOf(n, variant int) interface{} { return float64(n + 1000*variant) }
+
+func mkAggregate(f, variant int) func([]interface{}) (interface{}, error) {
 	return func(vs []interface{}) (interface{}, error) {
-		r, fail := record(f, listArg(vs))
+		r, fail := record(f, variant, listArg(vs))
 		if f == fYA {
 			reenter(r)
 		}
@@ -164,7 +183,7 @@ func mkAggregate(f int) func([]interface{}) (interface{}, error) {
 		}
 		switch f {
 		case fCnt, fYA:
-			return float64(len(vs)), nil
+			return countOf(len(vs), variant), nil
 		case fFirst:
 			if len(vs) == 0 {
 				return nil, nil
@@ -194,6 +213,7 @@ type CfgSpec struct {
 	Present  bool
 	Funcs    uint32 // bit f: function f registered
 	Accessor bool
+	Variant  int // which behaviour the registered functions have (same names, different functions)
 }
 
 func (c CfgSpec) String() string {
@@ -209,6 +229,9 @@ func (c CfgSpec) String() string {
 	if c.Accessor {
 		s += "ACCESSOR"
 	}
+	if c.Variant > 0 {
+		s += " variant" + string(rune('0'+c.Variant))
+	}
 	return s + "}"
 }
 
@@ -219,9 +242,9 @@ func buildConfig(c CfgSpec) jsonpath.Config {
 			continue
 		}
 		if isAggregate(f) {
-			cfg.SetAggregateFunction(funcNames[f], mkAggregate(f))
+			cfg.SetAggregateFunction(funcNames[f], mkAggregate(f, c.Variant))
 		} else {
-			cfg.SetFilterFunction(funcNames[f], mkFilter(f))
+			cfg.SetFilterFunction(funcNames[f], mkFilter(f, c.Variant))
 		}
 	}
 	if c.Accessor {
